@@ -2,9 +2,10 @@
 //! included verbatim below) run in-process, deterministically, over simulated
 //! sockets and clocks, with scripted PTP endpoints around it.
 //!
-//!   daemonsim check <C15|C12> <quick|thorough>
+//!   daemonsim check <C15|C12|C19> <quick|thorough>
 //!   daemonsim replay <file> [--quiet]
 //!   daemonsim selftest
+//!   daemonsim merge-evidence <ID>      (fold <ID>.daemon.part.json into an <ID>.json written by another engine)
 //!   daemonsim show <C15|C12> <index> [quick|thorough]     (debug: run one generated scenario, print its history)
 //!
 //! A worker is this same binary started as `daemonsim -c <tmp>/statime.toml` with
@@ -38,9 +39,9 @@ fn main() {
     let args: Vec<String> = std::env::args().collect();
     let code = match args.get(1).map(|s| s.as_str()) {
         Some("check") => match args.get(2).map(|s| s.as_str()) {
-            Some(id @ ("C15" | "C12")) => parent::check(id, tier_of(args.get(3))),
+            Some(id @ ("C15" | "C12" | "C19")) => parent::check(id, tier_of(args.get(3))),
             _ => {
-                eprintln!("usage: daemonsim check <C15|C12> <quick|thorough>");
+                eprintln!("usage: daemonsim check <C15|C12|C19> <quick|thorough>");
                 2
             }
         },
@@ -49,12 +50,16 @@ fn main() {
             None => 2,
         },
         Some("selftest") => parent::selftest(),
+        Some("merge-evidence") => match args.get(2) {
+            Some(id) => parent::merge_evidence(id),
+            None => 2,
+        },
         Some("show") => {
             let id = args.get(2).cloned().unwrap_or_else(|| "C15".into());
             let idx: u64 = args.get(3).and_then(|s| s.parse().ok()).unwrap_or(0);
             let scn = scenario::generate(&id, parent::base_seed(), idx, tier_of(args.get(4)));
             println!("{}", serde_json::to_string_pretty(&scn).unwrap());
-            println!("--- config ---\n{}", scn.config_toml());
+            println!("--- config ---\n{}", scn.config_toml(None));
             match parent::run_one(&scn, true) {
                 Ok(r) => {
                     for l in &r.trace {
@@ -73,7 +78,7 @@ fn main() {
             }
         }
         _ => {
-            eprintln!("usage: daemonsim check <C15|C12> <quick|thorough> | replay <file> | selftest | show <ID> <index>");
+            eprintln!("usage: daemonsim check <C15|C12|C19> <quick|thorough> | replay <file> | selftest | merge-evidence <ID> | show <ID> <index>");
             2
         }
     };
